@@ -31,7 +31,7 @@ ASSUMPTIONS = [
     "in-place wrapping of map_* attributes observes every dispatch (verified: wrapped count "
     "reported in evidence)",
 ]
-MIN_MONITOR = {"mon.applications": 300, "mon.once_oracle": 200, "mon.reach_oracle": 200,
+MIN_MONITOR = {"mon.single_change_oracle": 300, "mon.applications": 300, "mon.once_oracle": 200, "mon.reach_oracle": 200,
                "mon.identity_oracle": 50, "mon.collision_oracle": 10}
 SHARD_TIMEOUT = {"quick": 900, "thorough": 7200}
 N_GRAPHS = {"quick": 640, "thorough": 6000}
@@ -348,6 +348,42 @@ def check_graph(desc: dict[str, Any], col: common.Collector, apps: list[Any], tr
         col.case(common.stable_hash([desc, name]), shared,
                  {"graph": desc, "application": name, "nodes": len(walk_all),
                   "events": len(events)})
+    # (3b) a CopyMapper-based transformation that changes exactly ONE node: every use of it
+    # -- through whatever kind of edge -- must see the new node, nothing else may change
+    from pytato import transform as tr
+    from vf.vtags import VTag
+    rng1 = common.rng_for(desc["seed"], "tagone")
+    cands = [n for n in walk_nobody if isinstance(n, pt.Array)
+             and not isinstance(n, pt.NamedArray) and indeg.get(id(n), 0) >= 1]
+    for chosen in rng1.sample(cands, min(4, len(cands))):
+        kinds_in = sorted({reflect.edge_kind(path) for p_, path, c in reflect.all_edges(
+            g, enter_functions=False, skip_kinds=reflect.MAPPER_INVISIBLE) if c is chosen})
+        wit = {"desc": desc, "application": "map_and_copy(tag-one)",
+               "chosen": type(chosen).__name__, "edges": kinds_in}
+
+        def fn1(x: Any, _c: Any = chosen) -> Any:
+            return x.tagged(VTag(4711)) if x is _c else x
+        try:
+            res1 = tr.map_and_copy(g, fn1)
+        except Exception as e:  # noqa: BLE001
+            col.histo("application_raises", f"map_and_copy(tag-one):{type(e).__name__}:"
+                      f"{common.norm_msg(str(e), 40)}")
+            continue
+        col.count("mon.single_change_oracle")
+        after = reflect.walk(res1, enter_functions=False, skip_kinds=reflect.MAPPER_INVISIBLE)
+        if any(n is chosen for n in after):
+            stale = sorted({f"{type(p_).__name__}.{reflect.edge_kind(path)}"
+                            for p_, path, c in reflect.all_edges(
+                                res1, enter_functions=False,
+                                skip_kinds=reflect.MAPPER_INVISIBLE) if c is chosen})
+            col.violation(f"C13:stale-use-after-single-change:{','.join(stale)[:80]}",
+                          f"after replacing one {type(chosen).__name__} the result still uses "
+                          f"the old node through {stale}: uses of one shared node were mapped "
+                          "to different results", wit)
+        elif len(after) != len(walk_nobody):
+            col.violation("C13:single-change-alters-node-count",
+                          f"{len(walk_nobody)} nodes before, {len(after)} after replacing one "
+                          "node", wit)
     # (4) collision reporting and deduplicate on graphs WITH duplicates
     victims = [n for n in walk_nobody if indeg.get(id(n), 0) >= 1
                and isinstance(n, pt.Array) and not isinstance(n, (pt.NamedArray,))
